@@ -117,7 +117,7 @@ class ProgressBar(Widget):
         (maxcol,) = size
         c = Text(self.get_text(), self.text_align, WrapMode.CLIP).render((maxcol,))
 
-        cf = float(self.current) * maxcol / self.done
+        cf = max(0.0, float(self.current) * maxcol / self.done)
         ccol_dirty = int(cf)
         ccol = len(c._text[0][:ccol_dirty].decode("utf-8", "ignore").encode("utf-8"))
         cs = 0
